@@ -128,9 +128,10 @@ PROPS = {
     },
     "C20": {
         "module": "HctlProofs.Props.C20",
-        "theorems": ["Hctl.C20.colour_slice_eq", "Hctl.C20.sat_colourwise", "Hctl.C20.slice_independent_of_other_colours"],
+        "theorems": ["Hctl.C20.colour_slice_eq", "Hctl.C20.sat_colourwise", "Hctl.C20.slice_independent_of_other_colours",
+                     "Hctl.C20.colour_slice_sem", "Hctl.C20.colour_slice_entry"],
         "ks": ["o20"],
-        "spec_tied": ["o20:pure_"],
+        "spec_tied": ["o20:eval "],
         "full": False,
         "not_proved": "that pick_witness yields a network whose single colour has the transitions of the chosen colour "
                       "(hypothesis AgreeCol) is a library property, exercised by O20",
